@@ -235,6 +235,13 @@ class Kernel:
         self.parent_header = None
 
         #
+        # each shell connection has its own listener task, but there is only one interpreter
+        # context, execution counter and current parent header: like a regular kernel, requests
+        # from all front ends are handled one at a time
+        #
+        self.shell_lock = asyncio.Lock()
+
+        #
         # we create a logging handler so that output from the log functions
         # gets delivered back to Jupyter as stdout
         #
@@ -667,7 +674,8 @@ class Kernel:
             await shell_socket.handshake()
             while 1:
                 msg = await shell_socket.recv_multipart()
-                await self.shell_handler(shell_socket, msg)
+                async with self.shell_lock:
+                    await self.shell_handler(shell_socket, msg)
         except asyncio.CancelledError:
             shell_socket.close()
             raise
